@@ -156,6 +156,18 @@ def c02_exactly_once(api, run):
             prove(api, implies(snot(truthy(m.p["forever"])), ok),
                   "C02: run of %s reported success but non-forever job %s did not run to its end exactly once"
                   % (s, m), run)
+        # ... "returned, or raised while non-critical": a critical job that raised strictly before the last
+        # completion cannot be part of a success (same-instant ties: see C04)
+        b = run.started(s)
+        fins = [ite(truthy(m.p["forever"]), b.t, run.finished(m).t) for m in s.children
+                if run.finished(m) is not None and run.finished(m).seq < e.seq]
+        t_decide = smax(b.t, *fins)
+        for m in s.children:
+            r = run.first(m.name, "run_exc" if m.is_sched else "raise")
+            if r is not None and r.seq < e.seq:
+                prove(api, implies(truthy(m.p["crit"]), snot(r.t < t_decide)),
+                      "C02: run of %s reported success although critical %s had raised before the last completion"
+                      % (s, m), run)
 
 
 # ------------------------------------------------------------------------------- C03
@@ -342,6 +354,38 @@ def lat_bound(s):
     return smax(*lats)
 
 
+def cancel_req(run, m):
+    """the event at which m was told to stop: cancel() called on its task (for a nested scheduler the
+    CancelledError only comes out of its run after it has cleaned up)"""
+    return run.first(m.name, "tcancel") or run.cancelled(m)
+
+
+def propagation(api, run, m, c, pid, why):
+    """a nested scheduler m that is cancelled at event c passes the cancellation on at once: every atomic job
+    below it whose body is executing then is cancelled in that same instant"""
+    if not m.is_sched:
+        return
+    for j in m.descendants():
+        if j.is_sched:
+            continue
+        st = run.started(j)
+        if st is None or st.seq > c.seq:
+            continue
+        o = run.over(j)
+        if o is not None and o.seq < c.seq:
+            continue
+        jc = run.first(j.name, "cancel")
+        if jc is None:
+            f = run.finished(j)
+            if f is not None:
+                prove(api, seq_(f.t, c.t), "%s: %s (inside %s) kept running after %s" % (pid, j, m, why), run)
+                continue
+            fail(api, "%s: %s (inside %s) was never cancelled although %s" % (pid, j, m, why), run)
+        api.note("propagated_cancellations")
+        prove(api, seq_(jc.t, c.t), "%s: %s (inside %s) was cancelled at another instant than %s was, %s"
+              % (pid, j, m, m, why), run)
+
+
 def task_of(m):
     return getattr(m.obj, "_task", None)
 
@@ -395,11 +439,12 @@ def c05_critical_abort(api, run, require=False):
                         if f.kind == "raise" and m.obj.raised_exception() is not m.exc:
                             fail(api, "C05: %s lost its exception" % m, run)
                     continue
-                c = run.cancelled(m)
+                c = cancel_req(run, m)
                 if c is not None:
                     api.note("c05_cancelled_siblings")
                     prove(api, seq_(c.t, t_e), "C05: %s was cancelled at a different time than the critical "
                           "failure of %s" % (m, culprit), run)
+                    propagation(api, run, m, c, "C05", "the critical failure of %s" % culprit)
                 elif f is not None:
                     prove(api, seq_(f.t, t_e), "C05: %s was still running at the critical failure of %s and "
                           "was not cancelled" % (m, culprit), run)
@@ -485,7 +530,7 @@ def _t_stop(run, s, over):
     """earliest instant at which s stops scheduling: first cancel it sent / its end"""
     ts = [over.t]
     for m in s.children:
-        c = run.cancelled(m)
+        c = cancel_req(run, m)
         if c is not None and c.seq < over.seq:
             ts.append(c.t)
     for ev in run.events:
@@ -527,7 +572,7 @@ def _c12_windowed_sample(api, run):
         # not while s is cleaning up
         if any(ev.who == s.name and ev.kind == "ssd_begin" for ev in run.events):
             continue
-        if any(run.cancelled(m) is not None for m in s.children):
+        if any(cancel_req(run, m) is not None for m in s.children):
             continue
         nrun = len(_running_members(run, s))
         for m in s.children:
@@ -630,20 +675,21 @@ def c08_timeout(api, run):
                 task = task_of(m)
                 f = run.finished(m)
                 if st is not None:
-                    if f is not None and f.seq < over.seq and run.cancelled(m) is None:
+                    if f is not None and f.seq < over.seq and cancel_req(run, m) is None:
                         # finished earlier: keeps its results
                         if not m.obj.is_done():
                             fail(api, "C08: %s finished before the timeout of %s but is not done" % (m, s), run)
                         if not m.is_sched and f.kind == "end" and m.obj.result() is not m.sentinel:
                             fail(api, "C08: %s lost its result after the timeout of %s" % (m, s), run)
                         continue
-                    c = run.cancelled(m)
+                    c = cancel_req(run, m)
                     if c is None:
                         fail(api, "C08: %s was running when the timeout of %s expired and was not cancelled"
                              % (m, s), run)
                     api.note("c08_cancelled")
                     prove(api, seq_(c.t, D), "C08: %s was cancelled at another instant than the expiry of %s"
                           % (m, s), run)
+                    propagation(api, run, m, c, "C08", "the timeout of %s expired" % s)
                 elif task is not None:
                     api.note("c08_queued")
                     if not task.done():
@@ -694,11 +740,12 @@ def c09_forever(api, run):
             st = run.started(m)
             f = run.finished(m)
             if st is not None and (f is None or f.seq > over.seq):
-                c = run.cancelled(m)
+                c = cancel_req(run, m)
                 if c is None:
                     fail(api, "C09: %s was still running when %s ended successfully and was not cancelled"
                          % (m, s), run)
                 api.note("c09_cancelled_forever")
+                propagation(api, run, m, c, "C09", "%s ended" % s)
                 prove(api, seq_(c.t, t_star), "C09: forever job %s was cancelled at another instant than the end "
                       "of the last non-forever job of %s" % (m, s), run)
                 prove(api, truthy(m.p["forever"]), "C09: non-forever %s cancelled by a successful run" % m, run)
